@@ -229,6 +229,7 @@ type expectation struct {
 	Why      string
 	NTags    int    // parsable tags seen by the selection (evidence)
 	DepID    string // identifier of the dependency being resolved
+	Twin     bool   // an installed package of the same kind shares the repository path on ANOTHER registry
 }
 
 type installedObj struct {
@@ -327,6 +328,12 @@ func refStep(w world, installed []installedObj) expectation {
 		return expectation{Why: "dependency has neither type nor apiVersion/kind"}
 	}
 	exp := expectation{Kind: kinds[first.Kind], Repo: ref.Context().Name(), DepID: first.Pkg}
+	for _, o := range installed {
+		if pref, err := name.ParseReference(o.Package, name.WithDefaultRegistry(defaultRegistry)); err == nil && o.Kind == exp.Kind &&
+			pref.Context().RepositoryStr() == ref.Context().RepositoryStr() && pref.Context().Name() != exp.Repo {
+			exp.Twin = true
+		}
+	}
 	tags, hasTags := w.Tags[first.Pkg]
 	exp.NTags = parsableTags(tags)
 
@@ -609,7 +616,56 @@ var repoIDs = []string{
 	"xpkg.example.org/acme/p3", "xpkg.example.org/acme/p4", "acme/q5",
 }
 
+// twinIDs: package sources that share a repository path across registries
+// (plain host, host:port, the docker.io alias and the default registry). The
+// lock, the DAG and the tag fetcher identify a package by its full source
+// including the registry, so twins are DIFFERENT packages.
+var twinIDs = []string{
+	"xpkg.example.org/acme/p0",
+	"registry-a.example.com/acme/p1", "registry-b.example.com:5000/acme/p1",
+	"registry-a.example.com/acme/p2", "registry-b.example.com:5000/acme/p2",
+	"docker.io/acme/q5", "acme/q5",
+}
+
 const badRepoID = "xpkg.example.org/Acme/UPPER"
+
+// respell returns another spelling of the same image repository, as
+// go-containerregistry normalises it (docker.io == index.docker.io; no host ==
+// the default registry).
+func respell(t *rapid.T, id string) string {
+	if !rapid.Bool().Draw(t, "respell") {
+		return id
+	}
+	switch {
+	case strings.HasPrefix(id, "docker.io/"):
+		return "index." + id
+	case strings.Count(id, "/") == 1 && !strings.Contains(strings.SplitN(id, "/", 2)[0], "."):
+		return defaultRegistry + "/" + id
+	}
+	return id
+}
+
+// objName draws a custom object name that is unique among the objects of its kind.
+func objName(t *rapid.T, used map[string]bool, kind, i int, id, dflt string) string {
+	n := dflt
+	switch rapid.IntRange(0, 5).Draw(t, "objname") {
+	case 0:
+		n = fmt.Sprintf("aaa-legacy-%d", i)
+	case 1:
+		n = fmt.Sprintf("zzz-legacy-%d", i)
+	case 2: // the name the resolver itself would give it
+		if ref, err := name.ParseReference(id, name.WithDefaultRegistry(defaultRegistry)); err == nil {
+			n = xpkg.ToDNSLabel(ref.Context().RepositoryStr())
+		}
+	}
+	k := fmt.Sprintf("%d/%s", kind, n)
+	if used[k] {
+		n = fmt.Sprintf("%s-%d", dflt, i)
+		k = fmt.Sprintf("%d/%s", kind, n)
+	}
+	used[k] = true
+	return n
+}
 
 func repoKind(id string) int { return int(id[len(id)-1]-'0') % 3 }
 
@@ -628,16 +684,16 @@ func genTags() *rapid.Generator[[]string] {
 	})
 }
 
-func genDep(from int, acyclicBias bool, tags map[string][]string) *rapid.Generator[depSpec] {
+func genDep(pool []string, from int, acyclicBias bool, tags map[string][]string) *rapid.Generator[depSpec] {
 	return rapid.Custom(func(t *rapid.T) depSpec {
 		var id string
 		switch {
 		case rapid.IntRange(0, 119).Draw(t, "badrepo") == 57:
 			id = badRepoID
-		case acyclicBias && from+1 < len(repoIDs):
-			id = repoIDs[rapid.IntRange(from+1, len(repoIDs)-1).Draw(t, "fwd")]
+		case acyclicBias && from+1 < len(pool):
+			id = pool[rapid.IntRange(from+1, len(pool)-1).Draw(t, "fwd")]
 		default:
-			id = rapid.SampledFrom(repoIDs).Draw(t, "to")
+			id = rapid.SampledFrom(pool).Draw(t, "to")
 		}
 		d := depSpec{Pkg: id, Cons: consAround(t, tags[id], genConstraint())}
 		if id != badRepoID {
@@ -657,17 +713,26 @@ func genDep(from int, acyclicBias bool, tags map[string][]string) *rapid.Generat
 
 func genWorld() *rapid.Generator[world] {
 	return rapid.Custom(func(t *rapid.T) world {
+		if rapid.IntRange(0, 2).Draw(t, "twinpool") == 1 {
+			return genWorldPool(twinIDs).Draw(t, "twinworld")
+		}
+		return genWorldPool(repoIDs).Draw(t, "plainworld")
+	})
+}
+
+func genWorldPool(pool []string) *rapid.Generator[world] {
+	return rapid.Custom(func(t *rapid.T) world {
 		w := world{Mode: rapid.IntRange(0, 2).Draw(t, "mode"), Tags: map[string][]string{}, FetchErr: map[string]bool{}, Universe: map[string][]depSpec{}}
 		acyclic := rapid.IntRange(0, 4).Draw(t, "acyclicbias") != 0
-		for _, id := range repoIDs {
+		for _, id := range pool {
 			w.Tags[id] = genTags().Draw(t, "tags")
 		}
-		for i, id := range repoIDs {
+		for i, id := range pool {
 			if rapid.IntRange(0, 19).Draw(t, "fetcherr") == 7 {
 				w.FetchErr[id] = true
 			}
 			for k := rapid.IntRange(0, 2).Draw(t, "nuni"); k > 0; k-- {
-				w.Universe[id] = appendDep(w.Universe[id], genDep(i, acyclic, w.Tags).Draw(t, "unidep"))
+				w.Universe[id] = appendDep(w.Universe[id], genDep(pool, i, acyclic, w.Tags).Draw(t, "unidep"))
 			}
 		}
 		w.Tags[badRepoID] = []string{"1.0.0"}
@@ -676,12 +741,13 @@ func genWorld() *rapid.Generator[world] {
 			nlock = 0
 		}
 		inLock := map[string]bool{}
-		for _, i := range rapid.SliceOfNDistinct(rapid.IntRange(0, len(repoIDs)-1), nlock, nlock, rapid.ID[int]).Draw(t, "lockids") {
-			id := repoIDs[i]
+		used := map[string]bool{}
+		for _, i := range rapid.SliceOfNDistinct(rapid.IntRange(0, len(pool)-1), nlock, nlock, rapid.ID[int]).Draw(t, "lockids") {
+			id := pool[i]
 			inLock[id] = true
 			lp := lockPkg{Source: id, Kind: repoKind(id), Version: genVersion().Draw(t, "lockver")}
 			for k := rapid.IntRange(0, 3).Draw(t, "ndeps"); k > 0; k-- {
-				lp.Deps = appendDep(lp.Deps, genDep(i, acyclic, w.Tags).Draw(t, "dep"))
+				lp.Deps = appendDep(lp.Deps, genDep(pool, i, acyclic, w.Tags).Draw(t, "dep"))
 			}
 			w.Lock = append(w.Lock, lp)
 			// The package object behind a lock entry; occasionally already moved on (lock lags).
@@ -690,17 +756,17 @@ func genWorld() *rapid.Generator[world] {
 				if rapid.IntRange(0, 5).Draw(t, "lag") == 0 {
 					ver = genVersion().Draw(t, "objver")
 				}
-				w.Objs = append(w.Objs, pkgObj{Kind: lp.Kind, Name: fmt.Sprintf("root-p%d", i), Package: packageString(id, ver)})
+				w.Objs = append(w.Objs, pkgObj{Kind: lp.Kind, Name: objName(t, used, lp.Kind, i, id, fmt.Sprintf("root-p%d", i)), Package: packageString(respell(t, id), ver)})
 			}
 		}
 		// Packages that are installed but not (yet) in the lock.
-		for i, id := range repoIDs {
+		for i, id := range pool {
 			if !inLock[id] && rapid.IntRange(0, 3).Draw(t, "stray") == 0 {
 				ver := genVersion().Draw(t, "strayver")
 				if rapid.IntRange(0, 14).Draw(t, "untagged") == 0 {
 					ver = ""
 				}
-				w.Objs = append(w.Objs, pkgObj{Kind: repoKind(id), Name: fmt.Sprintf("stray-p%d", i), Package: packageString(id, ver)})
+				w.Objs = append(w.Objs, pkgObj{Kind: repoKind(id), Name: objName(t, used, repoKind(id), i, id, fmt.Sprintf("stray-p%d", i)), Package: packageString(respell(t, id), ver)})
 			}
 		}
 		return w
@@ -742,6 +808,16 @@ func classify(rec *verifkit.Recorder, pfx string, w world, exp expectation, a *a
 	}
 	if exp.PanicOK {
 		rec.Label("installed version not semver in update path")
+	}
+	if exp.Twin {
+		switch {
+		case w.Mode == 0:
+			rec.Label("twin registries (same repository path on two registries): upgrades off")
+		case !exp.Update:
+			rec.Label("twin registries (same repository path on two registries): required package MISSING, upgrades on")
+		default:
+			rec.Label("twin registries (same repository path on two registries): required package installed (violating/unlocked), upgrades on")
+		}
 	}
 	if exp.Write && !exp.Update && !isDigest(w.firstCons(exp.DepID)) {
 		// Evidence only: the install honours the first declaring edge; does it violate another parent's constraint?
@@ -796,6 +872,12 @@ func runHistory(t failer, rec *verifkit.Recorder, pfx string, w world, maxSteps 
 		sp, _ := verifsim.Nested(a.Obj, "spec", "package").(string)
 		ref, _ := name.ParseReference(sp, name.WithDefaultRegistry(defaultRegistry))
 		written = append(written, ref.Identifier())
+		if a.Err != "" {
+			// The request was right but the server refused it (the resolver names packages after their
+			// repository path, so the name can be taken): the package is not installed, nothing enters the lock.
+			rec.Label(pfx + " correct write refused by the server (object name taken): " + a.Verb)
+			break
+		}
 		adopt(&w, exp, sp)
 		e.setLock(w)
 	}
@@ -850,6 +932,16 @@ func genSelectionWorld() *rapid.Generator[world] {
 			w.Lock = append(w.Lock, lockPkg{Source: dep, Kind: repoKind(dep), Version: insGen.Draw(t, "lockedver")})
 			w.Objs = append(w.Objs, pkgObj{Kind: repoKind(dep), Name: "dep", Package: packageString(dep, insGen.Draw(t, "insver"))})
 		}
+		// An unrelated installed package of the same kind with the same repository path on another registry.
+		if rapid.IntRange(0, 2).Draw(t, "twin") == 1 {
+			twin := "registry-b.example.com:5000/acme/p1"
+			w.Tags[twin] = rapid.SliceOfN(tagGen, 0, 6).Draw(t, "twintags")
+			w.Objs = append(w.Objs, pkgObj{Kind: repoKind(dep), Name: rapid.SampledFrom([]string{"aaa-twin", "zzz-twin"}).Draw(t, "twinname"), Package: packageString(twin, insGen.Draw(t, "twinver"))})
+			if rapid.Bool().Draw(t, "twinlocked") {
+				ref, _ := name.ParseReference(w.Objs[len(w.Objs)-1].Package)
+				w.Lock = append(w.Lock, lockPkg{Source: twin, Kind: repoKind(dep), Version: ref.Identifier()})
+			}
+		}
 		return w
 	})
 }
@@ -887,6 +979,68 @@ func FuzzVerifC17Selection(f *testing.F) {
 	f.Fuzz(rapid.MakeFuzz(resolverProp(rec, "FS", genSelectionWorld(), 2)))
 }
 
+// TestVerifC17TwinExhaustive enumerates the small scope of "two packages of one
+// kind share a repository path on two registries": which twin a parent
+// requires, whether the required one is missing / installed and locked
+// (violating) / installed but not locked, whether the other twin is installed
+// (named so that it lists before or after the required one) and locked, the
+// versions on both sides, three constraints, all three modes. Identity is the
+// full source including the registry (as the lock and the DAG define it): only
+// the required package's own object may be created or moved, with tags and
+// "not older" taken from the required package.
+func TestVerifC17TwinExhaustive(t *testing.T) {
+	rec := verifkit.New(t, "C17", "exhaustive twin-registry scope (see test comment); non-trivial = every case; distinct=case index")
+	twins := []string{"registry-a.example.com/acme/p1", "registry-b.example.com:5000/acme/p1"}
+	parent := repoIDs[0]
+	shard, shards := verifkit.Shard()
+	idx := 0
+	for mode := 0; mode <= 2; mode++ {
+		for req := 0; req < 2; req++ {
+			for state := 0; state < 3; state++ { // 0 missing, 1 installed+locked, 2 installed, not locked
+				for _, vr := range []string{"1.0.0", "3.0.0"} {
+					for other := 0; other < 3; other++ { // 0 absent, 1 lists before, 2 lists after
+						for _, vo := range []string{"1.0.0", "3.0.0", "latest"} {
+							for otherLocked := 0; otherLocked < 2; otherLocked++ {
+								for _, cons := range []string{">=2.0.0", "<2.0.0", "^3.0.0"} {
+									if other == 0 && (vo != "1.0.0" || otherLocked == 1) {
+										continue
+									}
+									if state == 0 && vr != "1.0.0" {
+										continue
+									}
+									idx++
+									if idx%shards != shard {
+										continue
+									}
+									r, o := twins[req], twins[1-req]
+									k := repoKind(r)
+									w := world{Mode: mode, Tags: map[string][]string{r: {"4.0.0", "1.0.0", "3.0.0", "2.0.0"}, o: {"1.5.0", "5.0.0", "0.5.0"}}, FetchErr: map[string]bool{}, Universe: map[string][]depSpec{}}
+									w.Lock = append(w.Lock, lockPkg{Source: parent, Version: "1.0.0", Deps: []depSpec{{Pkg: r, Kind: k, Style: 1, Cons: cons}}})
+									if state >= 1 {
+										w.Objs = append(w.Objs, pkgObj{Kind: k, Name: "mmm-required", Package: packageString(r, vr)})
+									}
+									if state == 1 {
+										w.Lock = append(w.Lock, lockPkg{Source: r, Kind: k, Version: vr})
+									}
+									if other > 0 {
+										w.Objs = append(w.Objs, pkgObj{Kind: k, Name: []string{"", "aaa-legacy", "zzz-legacy"}[other], Package: packageString(o, vo)})
+										if otherLocked == 1 {
+											w.Lock = append(w.Lock, lockPkg{Source: o, Kind: k, Version: vo})
+										}
+									}
+									rec.Eval()
+									runHistory(fatalName{t, fmt.Sprintf("twin case %d", idx)}, rec, "T", w, 3)
+									rec.NonTrivial(fmt.Sprint(idx), func() any { return w })
+								}
+							}
+						}
+					}
+				}
+			}
+		}
+	}
+}
+
 // ---------------------------------------------------------------------------
 // pinned rows
 
@@ -914,6 +1068,12 @@ func TestVerifC17ResolverPinned(t *testing.T) {
 		// row against the sensitivity mutant that honours only the first parent's constraint.)
 		{"upgrade-disjoint-parents", world{Mode: 1, Lock: []lockPkg{{Source: p0, Version: "1.0.0", Deps: dep("^0.9.0")}, {Source: p2, Kind: repoKind(p2), Version: "1.0.0", Deps: dep(">=1.0.0")}, {Source: p1, Kind: repoKind(p1), Version: "0.9.0"}}, Objs: []pkgObj{{Kind: repoKind(p1), Name: "acme-p1", Package: p1 + ":0.9.0"}}, Tags: map[string][]string{p1: {"0.9.0", "1.0.0"}}}, ""},
 		{"history-disjoint-parents", world{Mode: 1, Lock: []lockPkg{{Source: p0, Version: "1.0.0", Deps: []depSpec{{Pkg: p1, Kind: repoKind(p1), Style: 0, Cons: "^0.9.0"}}}, {Source: p2, Kind: repoKind(p2), Version: "1.0.0", Deps: []depSpec{{Pkg: p1, Kind: repoKind(p1), Style: 0, Cons: ">=1.0.0"}}}}, Tags: map[string][]string{p1: {"0.9.0", "1.0.0"}}}, "0.9.0"},
+		// Twin registries, upgrades on, required package missing: it must be CREATED from its own tags; the unrelated
+		// package with the same repository path on the other registry (legacy-foo) must not be touched.
+		{"twin-missing-creates", world{Mode: 1, Lock: []lockPkg{{Source: p0, Version: "1.0.0", Deps: []depSpec{{Pkg: "registry-b.example.com/acme/p1", Kind: 1, Style: 1, Cons: ">=1.0.0"}}}}, Objs: []pkgObj{{Kind: 1, Name: "legacy-foo", Package: "registry-a.example.com/acme/p1:v1.0.0"}}, Tags: map[string][]string{"registry-b.example.com/acme/p1": {"v1.0.0", "v2.0.0"}, "registry-a.example.com/acme/p1": {"v1.0.0"}}}, "v2.0.0"},
+		// Twin registries, required package installed but violating, the other-registry package lists after it: the
+		// required package's own object moves, "not older" is measured against ITS installed version.
+		{"twin-violating-moves-own-object", world{Mode: 1, Lock: []lockPkg{{Source: p0, Version: "1.0.0", Deps: []depSpec{{Pkg: "registry-b.example.com/acme/p1", Kind: 1, Style: 1, Cons: ">=2.0.0"}}}, {Source: "registry-b.example.com/acme/p1", Kind: 1, Version: "1.0.0"}}, Objs: []pkgObj{{Kind: 1, Name: "foo-b", Package: "registry-b.example.com/acme/p1:1.0.0"}, {Kind: 1, Name: "zz-legacy-foo", Package: "registry-a.example.com/acme/p1:3.0.0"}}, Tags: map[string][]string{"registry-b.example.com/acme/p1": {"1.0.0", "2.0.0", "3.0.0", "4.0.0"}, "registry-a.example.com/acme/p1": {"3.0.0"}}}, "2.0.0"},
 		// Installed by digest, a parent asks for a range, upgrades enabled: nothing is "not older"
 		// than a digest, so nothing may be written. (The code reaches semver.MustParse(digest) and
 		// panics here; controller-runtime recovers reconciler panics by default, so the observable
